@@ -942,3 +942,64 @@ def build(case):
         cols, checks=[build_check(c) for c in case.get("df_checks", [])],
         index=build_index(case.get("index")), unique=case.get("df_unique"),
         dtype=case.get("df_dtype"))
+
+
+# --------------------------------------------------------------------------
+# directed corpus: one tiny, fixed case per call site where the unchanged tree
+# was seen to emit invalid data (so every run visits each of them, whatever
+# the seed), written in the same spec language as the generated cases
+# --------------------------------------------------------------------------
+def _F(dtype, checks=(), nullable=False, unique=False, name=None, witness=None, support=9):
+    return {"dtype": dtype, "cls": CLASS_OF[dtype], "witness": enc(witness),
+            "checks": [{"k": k, "a": {n: enc(v) for n, v in a.items()}} for k, a in checks],
+            "nullable": nullable, "unique": unique, "name": name, "regex": False,
+            "support": support}
+
+
+def _case(kind, fields, size, family="sat", **kw):
+    c = {"family": family, "kind": kind, "mode": "strategy", "n_regex": 1,
+         "fields": fields, "size": size}
+    if kind == "series":
+        c["index"] = kw.pop("index", None)
+    if kind == "frame":
+        c.update(index=kw.pop("index", None), df_checks=kw.pop("df_checks", []),
+                 df_unique=kw.pop("df_unique", None), df_dtype=None)
+    if family != "sat":
+        for f in fields:
+            f["pattern"] = kw.get("pattern", "directed")
+    return c
+
+
+def directed_cases():
+    ts = pd.Timestamp("2020-01-01 00:00:00.000000001")
+    tk = pd.Timestamp("2020-01-01 12:00", tz="Asia/Tokyo")
+    chk = lambda k, **a: (k, a)       # noqa: E731
+    return [
+        _case("series", [_F("str", [chk("str_startswith", string="a.b")], witness="a.bc")], 2),
+        _case("series", [_F("str", [chk("str_endswith", string="x|y")], witness="zx|y")], 2),
+        _case("series", [_F("int64", [chk("isin", allowed_values=[1, 2]), chk("eq", value=7)])], 2,
+              family="contradiction", pattern="directed:isin-eq"),
+        _case("series", [_F("int64", [chk("ne", value=7), chk("eq", value=7)])], 2,
+              family="contradiction", pattern="directed:ne-eq"),
+        _case("series", [_F("uint8", [chk("in_range", min_value=0, max_value=2,
+                                          include_min=False, include_max=False)], witness=1)], 3),
+        _case("series", [_F("datetime64[ns]", [chk(
+            "in_range", min_value=pd.Timestamp("2020-01-01"), max_value=ts + pd.Timedelta(1, unit="ns"),
+            include_min=False, include_max=False)], witness=ts)], 3),
+        _case("series", [_F("float64", nullable=True, unique=True, witness=0.5)], 3),
+        _case("frame", [_F("float64", nullable=True, name="a", witness=0.5)], 3, df_unique=["a"]),
+        _case("series", [_F("int64", nullable=True, witness=1)], 3),
+        _case("frame", [_F("bool", nullable=True, name="a", witness=True)], 3),
+        _case("series", [_F("int64", witness=1)], 2,
+              index={"multi": False, "fields": [_F("str", name="k", witness="a")]}),
+        _case("index", [_F("datetime64[ns]", [chk("eq", value=ts)], witness=ts)], 1),
+        _case("frame", [_F("timedelta64[ns]", [chk("isin", allowed_values=[pd.Timedelta(1501, unit="ns")])],
+                           name="a", witness=pd.Timedelta(1501, unit="ns"))], 1),
+        _case("frame", [_F("datetime64[ns, Asia/Tokyo]", [chk("eq", value=tk)], name="a", witness=tk)], 1),
+        _case("frame", [_F("int64", [chk("lt", max_value=10)], name="a", witness=3)], 3,
+              df_checks=[{"k": "ge", "a": {"min_value": 0}}]),
+        _case("multiindex", [_F("string", name="a", witness="x"), _F("int64", name="b", witness=1)], 2),
+        _case("index", [_F("int64", [chk("in_range", min_value=0, max_value=9, include_min=True,
+                                         include_max=True),
+                                     ("c_vec", {"fn": "mod", "m": 2, "r": 0})], witness=4)], 3),
+    ]
